@@ -2,7 +2,7 @@
    MODEL: Iter.try_new / Iter.inext with the ghost log i_log of all driver calls.
    Property theorems only; proofs in proofs/IterLogProof.v, ByNameProof.v. *)
 From DTR Require Import Prelude I64 Ast FramedMap Parser Bind Eval Stmt Iter ByNameSpec.
-From DTR.proofs Require Import IterLogProof ByNameProof.
+From DTR.proofs Require Import IterLogProof ByNameProof RunRefine RunRefineE IterLogProofE.
 Local Open Scope nat_scope.
 
 (* the constructor: exactly one output-reading call, carrying the default vector; for EVERY driver *)
@@ -74,6 +74,48 @@ Theorem C02_nothing_after_none : forall (G : gen) (DE : Type) (D : driver DE) (w
   forall fuel', fuel' <> 0 -> inext G DE D w_default tc fuel' st' = ItNone DE st'.
 Proof. exact next_after_none. Qed.
 
+(* THROUGH ERRORS (a caller that keeps calling next() after error items, collect_e): the log is accounted for item by item - a row: its one call; a driver error: exactly the failing call; an unusable answer: the call that produced it; an evaluation error of the program: no call; None: no call, and it is the last item *)
+Theorem C02_call_accounting_through_errors :
+  forall (G : gen) (DE : Type) (D : driver DE) (w_default : bool) (tc : testcase) 
+  (fuel n : nat) (st : istate) (items : list (item_view DE)) (st' : istate),
+  collect_e G DE D w_default tc fuel n st = (items, Some st') ->
+  exists calls : list call,
+  i_log st' = i_log st ++ calls /\ trace_e DE D w_default (i_log st) items calls.
+Proof. exact collect_e_log. Qed.
+
+(* never more than one driver call per item *)
+Theorem C02_at_most_one_call_per_item :
+  forall (DE : Type) (D : driver DE) (w_default : bool) (lg : list call) (items : list (item_view DE))
+  (calls : list call), trace_e DE D w_default lg items calls -> (length calls <= length items)%nat.
+Proof. exact trace_e_calls_le_items. Qed.
+
+(* item by item: which call (if any) belongs to it; a row's call carries exactly the row's inputs *)
+Theorem C02_each_call_belongs_to_one_item :
+  forall (DE : Type) (D : driver DE) (w_default : bool) (lg : list call) (items : list (item_view DE))
+  (calls : list call),
+  trace_e DE D w_default lg items calls ->
+  exists per : list (option call), Forall2 (item_call DE) items per /\ calls = calls_of per.
+Proof. exact trace_e_rows_verbatim. Qed.
+
+(* a run of rows only: the calls' input lists are exactly the rows' inputs, in order *)
+Theorem C02_rows_verbatim_through_errors :
+  forall (G : gen) (DE : Type) (D : driver DE) (w_default : bool) (tc : testcase) 
+  (fuel n : nat) (st : istate) (rows : list data_row) (st' : istate),
+  collect_e G DE D w_default tc fuel n st = (map VRow rows, Some st') ->
+  exists calls : list call, i_log st' = i_log st ++ calls /\ map snd calls = map dr_inputs rows.
+Proof. exact collect_e_log_rows. Qed.
+
+(* the caller stops at None: nothing is asked and nothing is sent after it *)
+Theorem C02_none_is_the_last_item :
+  forall (G : gen) (DE : Type) (D : driver DE) (w_default : bool) (tc : testcase) 
+  (fuel n : nat) (st : istate) (items : list (item_view DE)) (st' : istate),
+  collect_e G DE D w_default tc fuel n st = (items, Some st') ->
+  forall i : nat, nth_error items i = Some VNone -> i = (length items - 1)%nat.
+Proof. exact collect_e_nothing_after_none. Qed.
+
+
 Check C02_one_call_per_item.
 Print Assumptions C02_one_call_per_item.
 Print Assumptions C02_call_accounting.
+Print Assumptions C02_call_accounting_through_errors.
+Print Assumptions C02_each_call_belongs_to_one_item.
